@@ -157,11 +157,8 @@ func c14NewUniverse(seed uint32, specs []c14SlotSpec) *c14Universe {
 			outKind := sp.OutKind
 			outData := c14Bytes(seed, lbl("out"), 32)
 			if v == 1 && !sp.SameScript {
+				// (kind 3 as an output is a plain P2SH script.)
 				outKind = (sp.OutKind + 1) % 5
-				if outKind == c14NestedP2WKH {
-					// As an output this is plain P2SH.
-					outKind = c14NestedP2WKH
-				}
 				outData = c14Bytes(seed, lbl("out1"), 32)
 			}
 			outScript := c14Script(outKind, outData)
